@@ -1,6 +1,8 @@
 package fault
 
 import (
+	"fmt"
+
 	"github.com/cockroachdb/pebble"
 	"github.com/cockroachdb/pebble/verifharness/dbm"
 	"github.com/cockroachdb/pebble/verifharness/evid"
@@ -42,9 +44,36 @@ func knownPlans() []evid.Known[Plan] {
 		{K: "compact", A: "a", B: "z"},
 		{K: "faultsoff"},
 	}
+	// An Open that has to flush a replayed WAL (which schedules a compaction:
+	// L0CompactionThreshold 1) and then fails to create its new WAL (first WAL
+	// creation from the restart step on). Open returns the injected error while the compaction
+	// it started is still running; that goroutine goes on to use the version set
+	// the error path has closed.
+	opt3 := opt
+	opt3.DisableAutoCompaction = false
+	opt3.L0Compaction = 1
+	opt3.MemTableSize = 256 << 10
+	big := func(tag string, keys ...string) []dbm.Op {
+		var ops []dbm.Op
+		for i, k := range keys {
+			ops = append(ops, dbm.Op{K: "set", A: k, V: fmt.Sprintf("%s%d", tag, i), VLen: 9000})
+		}
+		return ops
+	}
+	steps3 := []Step{
+		{K: "write", Ops: big("x", "a", "a@3", "aa", "ab@2", "b", "ba@1", "c", "d", "e@4", "f"), Sync: true},
+		{K: "flush"},
+		{K: "wait"},
+		{K: "write", Ops: big("y", "a@1", "aa@2", "ab", "b@5", "bb", "ca", "d@2", "e", "f@1"), Sync: true},
+		{K: "restart"},
+		{K: "get", A: "a"},
+		{K: "faultsoff"},
+	}
+	rule3 := []Rule{{Kinds: []string{"create"}, Classes: []string{"wal"}, From: 4, Nth: 1}}
 	rule := []Rule{{Kinds: []string{"read"}, Classes: []string{"sst"}, From: 4, Nth: 11}}
 	return []evid.Known[Plan]{
 		{Signature: SigCompactFirst, Plan: Plan{Opt: opt, Steps: steps, End: EndPlan{Surv: []int{0}}, NoExclude: true, Rules: rule}},
 		{Signature: SigCompactSaveValue, Plan: Plan{Opt: opt2, Steps: steps2, End: EndPlan{Surv: []int{0}}, NoExclude: true, Rules: rule}},
+		{Signature: SigFailedOpenLeak, Plan: Plan{Opt: opt3, Steps: steps3, End: EndPlan{Surv: []int{0}}, NoExclude: true, Rules: rule3}},
 	}
 }
